@@ -1,9 +1,213 @@
 import NibabelModel.Model.C18
 import Driver.Util
-/-! Line-protocol driver for C18: `C18 <op> <args...>` -> one observable line. -/
+/-! Line-protocol driver for C18: `C18 <kind> <axis fields...> <op> <args...>` -> one observable line.
+
+  index token : `i<int>` | `s<a>,<b>,<c>` (`_` = None) | `a<int,int,..>` (`a-` empty) | `m<0/1 bits>` (`m-` empty)
+  lists       : `1,2,3` or `-`;  dict `k:v,k:v` or `-`;  option `_`;  shape `x.y.z`
+  bm elements : `sid/i.j.k/vertex,...` or `-`
+-/
 namespace Nb.Drv.C18
+open Nb Nb.C18
+
+def parseIndex? (s : String) : Option Index :=
+  let rest := (s.drop 1).toString
+  if s.startsWith "i" then rest.toInt?.map Index.int
+  else if s.startsWith "s" then
+    match (rest.splitOn ",").mapM parseOptInt? with
+    | some [a, b, c] => some (.slice ⟨a, b, c⟩)
+    | _ => none
+  else if s.startsWith "a" then (parseIntList? rest).map Index.arr
+  else if s.startsWith "m" then
+    if rest = "-" then some (.mask [])
+    else (rest.toList.mapM (fun c => if c = '1' then some true else if c = '0' then some false else none)).map Index.mask
+  else none
+
+def parseDict? (s : String) : Option Dict :=
+  if s = "-" then some []
+  else (s.splitOn ",").mapM (fun kv => match kv.splitOn ":" with
+    | [k, v] => match k.toNat?, v.toNat? with
+      | some k, some v => some (k, v)
+      | _, _ => none
+    | _ => none)
+
+def parseOptNat? (s : String) : Option (Option Nat) :=
+  if s = "_" then some none else s.toNat?.map some
+
+def parseShape? (s : String) : Option (Option Shape) :=
+  if s = "_" then some none
+  else match (s.splitOn ".").mapM (·.toNat?) with
+    | some [a, b, c] => some (some (a, b, c))
+    | _ => none
+
+def parseVox? (s : String) : Option Vox :=
+  match (s.splitOn ".").mapM (·.toInt?) with
+  | some [a, b, c] => some (a, b, c)
+  | _ => none
+
+def parseBMElems? (s : String) : Option (List (Nat × Vox × Int)) :=
+  if s = "-" then some []
+  else (s.splitOn ",").mapM (fun e => match e.splitOn "/" with
+    | [n, v, w] => match n.toNat?, parseVox? v, w.toInt? with
+      | some n, some v, some w => some (n, v, w)
+      | _, _, _ => none
+    | _ => none)
+
+def showErr : Err → String
+  | .indexError => "ERR:IndexError"
+  | .valueError => "ERR:ValueError"
+
+def joinOr (sep : String) (l : List String) : String := if l.isEmpty then "-" else sep.intercalate l
+
+def showDict (d : Dict) : String :=
+  joinOr "," ((d.mergeSort (fun a b => a.1 ≤ b.1)).map (fun p => toString p.1 ++ ":" ++ toString p.2))
+
+def showOptNat : Option Nat → String
+  | none => "_"
+  | some n => toString n
+
+def showShape : Option Shape → String
+  | none => "_"
+  | some (a, b, c) => s!"{a}.{b}.{c}"
+
+def showVox (v : Vox) : String := s!"{v.1}.{v.2.1}.{v.2.2}"
+
+def showPair (e : Nat × Nat) : String := s!"{e.1}:{e.2}"
+def showTriple (e : Nat × Nat × Nat) : String := s!"{e.1}:{e.2.1}:{e.2.2}"
+def showBMElem : BMElem → String
+  | .surf n v => s!"S:{n}:{v}"
+  | .vox n v => s!"V:{n}:{showVox v}"
+
+def showSeries (a : Series) : String :=
+  s!"ax {a.start} {a.step} {a.size} {a.unit} {showList a.elements}"
+
+def showScalar (a : Scalar) : String := s!"ax {a.size} {joinOr ";" (a.elements.map showPair)}"
+def showLabel (a : Label) : String := s!"ax {a.size} {joinOr ";" (a.elements.map showTriple)}"
+def showVol (nv : Dict) (aff : Option Nat) (shp : Option Shape) : String :=
+  s!"nv={showDict nv} aff={showOptNat aff} shp={showShape shp}"
+def showParcels (a : Parcels) : String :=
+  s!"ax {a.size} {joinOr ";" (a.elements.map showTriple)} {showVol a.nvertices a.affine a.shape}"
+def showBM (a : BM) : String :=
+  s!"ax {a.size} {joinOr ";" (a.elements.map showBMElem)} {showVol a.nvertices a.affine a.shape}"
+
+def out {α} (f : α → String) : Except Err α → String
+  | .ok a => f a
+  | .error e => showErr e
+
+def parseSeries? : List String → Option Series
+  | [a, b, c, d] => match a.toInt?, b.toInt?, c.toNat?, d.toNat? with
+    | some a, some b, some c, some d => if d < 4 then some ⟨a, b, c, d⟩ else none
+    | _, _, _, _ => none
+  | _ => none
+
+def parseScalar? : List String → Option (Except Err Scalar)
+  | [n, m] => match parseNatList? n, parseNatList? m with
+    | some n, some m => some (scalarMk n m)
+    | _, _ => none
+  | _ => none
+
+def parseLabel? : List String → Option (Except Err Label)
+  | [n, l, m] => match parseNatList? n, parseNatList? l, parseNatList? m with
+    | some n, some l, some m => some (labelMk n l m)
+    | _, _, _ => none
+  | _ => none
+
+def parseParcels? : List String → Option (Except Err Parcels)
+  | [n, v, w, nv, aff, shp] =>
+    match parseNatList? n, parseNatList? v, parseNatList? w, parseDict? nv, parseOptNat? aff, parseShape? shp with
+    | some n, some v, some w, some nv, some aff, some shp => some (parcelsMk n v w aff shp nv)
+    | _, _, _, _, _, _ => none
+  | _ => none
+
+def parseBM? : List String → Option (Except Err BM)
+  | [es, nv, aff, shp] =>
+    match parseBMElems? es, parseDict? nv, parseOptNat? aff, parseShape? shp with
+    | some es, some nv, some aff, some shp =>
+      some (bmMk (es.map (·.1)) (es.map (·.2.1)) (es.map (·.2.2)) aff shp nv)
+    | _, _, _, _ => none
+  | _ => none
+
+def showRec (r : BMRec) : String :=
+  s!"{r.offset}:{r.count}:{if r.surf then "S" else "V"}:{r.name}:{showOptNat r.nvert}"
+
+def showMap (m : BMMap) : String :=
+  joinOr "," (m.recs.map showRec) ++ " vol=" ++
+    (match m.volume with
+     | none => "_"
+     | some (s, a) => showShape s ++ "/" ++ showOptNat a)
 
 def handle : List String → String
+  -- ------------------------------------------------------------------ SeriesAxis
+  | ["ser", a, b, c, d, "idx", i] =>
+    match parseSeries? [a, b, c, d], parseIndex? i with
+    | some ax, some idx =>
+      out (fun | SeriesItem.elem t => s!"el {t}" | .axis r => showSeries r) (seriesGetitem ax idx)
+    | _, _ => "bad-op"
+  | ["ser", a, b, c, d, "add", a2, b2, c2, d2] =>
+    match parseSeries? [a, b, c, d], parseSeries? [a2, b2, c2, d2] with
+    | some x, some y => out showSeries (seriesAdd x y)
+    | _, _ => "bad-op"
+  -- ------------------------------------------------------------------ ScalarAxis
+  | ["sc", n, m, "idx", i] =>
+    match parseScalar? [n, m], parseIndex? i with
+    | some ax, some (.int k) => out (fun e => "el " ++ showPair e) (ax >>= (scalarGetElement · k))
+    | some ax, some idx => out showScalar (ax >>= (scalarGetitem · idx))
+    | _, _ => "bad-op"
+  | ["sc", n, m, "add", n2, m2] =>
+    match parseScalar? [n, m], parseScalar? [n2, m2] with
+    | some x, some y => out showScalar (do let x ← x; let y ← y; scalarAdd x y)
+    | _, _ => "bad-op"
+  -- ------------------------------------------------------------------ LabelAxis
+  | ["la", n, l, m, "idx", i] =>
+    match parseLabel? [n, l, m], parseIndex? i with
+    | some ax, some (.int k) => out (fun e => "el " ++ showTriple e) (ax >>= (labelGetElement · k))
+    | some ax, some idx => out showLabel (ax >>= (labelGetitem · idx))
+    | _, _ => "bad-op"
+  | ["la", n, l, m, "add", n2, l2, m2] =>
+    match parseLabel? [n, l, m], parseLabel? [n2, l2, m2] with
+    | some x, some y => out showLabel (do let x ← x; let y ← y; labelAdd x y)
+    | _, _ => "bad-op"
+  -- ------------------------------------------------------------------ ParcelsAxis
+  | ["pa", n, v, w, nv, aff, shp, "idx", i] =>
+    match parseParcels? [n, v, w, nv, aff, shp], parseIndex? i with
+    | some ax, some (.int k) => out (fun e => "el " ++ showTriple e) (ax >>= (parcelsGetElement · k))
+    | some ax, some idx => out showParcels (ax >>= (parcelsGetitem · idx))
+    | _, _ => "bad-op"
+  | ["pa", n, v, w, nv, aff, shp, "name", k] =>
+    match parseParcels? [n, v, w, nv, aff, shp], k.toNat? with
+    | some ax, some k => out (fun e => "el " ++ showPair e) (ax >>= (parcelsByName · k))
+    | _, _ => "bad-op"
+  | ["pa", n, v, w, nv, aff, shp, "add", n2, v2, w2, nv2, aff2, shp2] =>
+    match parseParcels? [n, v, w, nv, aff, shp], parseParcels? [n2, v2, w2, nv2, aff2, shp2] with
+    | some x, some y => out showParcels (do let x ← x; let y ← y; parcelsAdd x y)
+    | _, _ => "bad-op"
+  -- ------------------------------------------------------------------ BrainModelAxis
+  | ["bm", es, nv, aff, shp, "idx", i] =>
+    match parseBM? [es, nv, aff, shp], parseIndex? i with
+    | some ax, some (.int k) => out (fun e => "el " ++ showBMElem e) (ax >>= (bmGetElement · k))
+    | some ax, some idx => out showBM (ax >>= (bmGetitem · idx))
+    | _, _ => "bad-op"
+  | ["bm", es, nv, aff, shp, "add", es2, nv2, aff2, shp2] =>
+    match parseBM? [es, nv, aff, shp], parseBM? [es2, nv2, aff2, shp2] with
+    | some x, some y => out showBM (do let x ← x; let y ← y; bmAdd x y)
+    | _, _ => "bad-op"
+  | ["bm", es, nv, aff, shp, "runs"] =>
+    match parseBM? [es, nv, aff, shp] with
+    | some ax =>
+      out (fun (l : List (Run × Nat)) =>
+          joinOr "," (l.map (fun (r, n) => s!"{r.name}:{r.start}:{r.stop}:{n}")))
+        (do let a ← ax
+            let rs ← runs a.name
+            rs.mapM (fun r => do let s ← bmSub a r.start r.stop; pure (r, s.size)))
+    | _ => "bad-op"
+  | ["bm", es, nv, aff, shp, "rt"] =>
+    match parseBM? [es, nv, aff, shp] with
+    | some ax =>
+      out (fun (p : BMMap × BM) => showBM p.2 ++ " | " ++ showMap p.1)
+        (do let a ← ax
+            let m ← bmToMapping a
+            let r ← bmFromMapping m
+            pure (m, r))
+    | _ => "bad-op"
   | _ => "bad-op"
 
 end Nb.Drv.C18
